@@ -73,3 +73,235 @@ Proof.
   - unfold encodeEvent. enc_norm. reflexivity.
 Qed.
 
+(* ---- C: the size precomputation is the length of the body ------------------------------ *)
+
+Lemma blen_opt_bytes c b : blen (opt_bytes c b) = if c then blen b else 0.
+Proof. destruct c; reflexivity. Qed.
+
+Ltac blen_norm :=
+  repeat first [ rewrite blen_app | rewrite blen_opt_bytes | rewrite blen_put_u8 | rewrite blen_put_u32
+               | rewrite blen_put_u64 | rewrite blen_enc_str | rewrite blen_seq_bytes | rewrite blen_nil ].
+
+Ltac unfold_sizes :=
+  unfold SettingByteSize, StringFixLenByteSize, ClientSeqByteSize, ChannelTypeByteSize, VersionByteSize,
+    DeviceFlagByteSize, ClientTimestampByteSize, TimeDiffByteSize, ReasonCodeByteSize, MessageIDByteSize,
+    MessageSeqLegacyByteSize, MessageSeqU64ByteSize, TimestampByteSize, BigTimestampByteSize, ActionByteSize,
+    StreamIdByteSize, StreamFlagByteSize, ExpireByteSize, NodeIdByteSize in *.
+
+Ltac clr := repeat match goal with H : _ = true |- _ => clear H end.
+
+Lemma body_size_ok v f : fields_ok v f = true ->
+  fst (encodedFrameBodySize f v) = blen (body_bytes f v)
+  /\ (is_pingpong f = false -> snd (encodedFrameBodySize f v) = true).
+Proof.
+  intro H. destruct f; cbn [fields_ok] in H; split_ok H;
+    cbn [encodedFrameBodySize body_bytes]; unfold is_pingpong; cbn [frame_type].
+  - split; [|reflexivity]. cbn [fst]. unfold encodeConnectSize. blen_norm. unfold_sizes. clr. lia.
+  - split; [|reflexivity]. cbn [fst]. unfold encodeConnackSize. blen_norm. unfold_sizes. clr.
+    destruct (f_hsv fl), (4 <=? v); lia.
+  - assert (P : (PayloadMaxSize <? blen payload) = false) by (match goal with Hp : (blen payload <=? PayloadMaxSize) = true |- _ => clear - Hp; lia end). rewrite P.
+    split; [|reflexivity]. cbn [fst]. unfold encodeSendSize. blen_norm. unfold_sizes. clr.
+    destruct (has_stream v setting), (3 <=? v), (IsSet setting SettingTopic); lia.
+  - split; [|reflexivity]. cbn [fst]. unfold encodeSendackSize, messageSeqSize. blen_norm.
+    unfold messageSeqSize. unfold_sizes. clr.
+    destruct (blen clientMsgNo =? 0), (v <=? LegacyMessageSeqVersion); cbn [negb]; lia.
+  - split; [|reflexivity]. cbn [fst]. unfold encodeRecvSize. blen_norm. unfold messageSeqSize. unfold_sizes. clr.
+    destruct (has_stream v setting), (3 <=? v), (IsSet setting SettingTopic), (v <=? LegacyMessageSeqVersion); lia.
+  - split; [|reflexivity]. cbn [fst]. unfold encodeRecvackSize. blen_norm. unfold messageSeqSize. unfold_sizes. clr.
+    destruct (v <=? LegacyMessageSeqVersion); lia.
+  - split; [reflexivity|]. vm_compute. discriminate.
+  - split; [reflexivity|]. vm_compute. discriminate.
+  - split; [|reflexivity]. cbn [fst]. unfold encodeDisConnectSize. blen_norm. unfold_sizes. clr. lia.
+  - split; [|reflexivity]. cbn [fst]. unfold encodeSubSize. blen_norm. unfold_sizes. clr. lia.
+  - split; [|reflexivity]. cbn [fst]. unfold encodeSubackSize. blen_norm. unfold_sizes. clr. lia.
+  - split; [|reflexivity]. cbn [fst]. unfold encodeEventSize. blen_norm. unfold_sizes. clr. lia.
+Qed.
+
+(* every body is at least three bytes: encodeVariable2 0 = [] is unreachable *)
+Lemma body_nonzero v f : is_pingpong f = false -> snd (encodedFrameBodySize f v) = true ->
+  3 <= fst (encodedFrameBodySize f v).
+Proof.
+  destruct f; unfold is_pingpong; cbn [frame_type encodedFrameBodySize]; intros NP OK;
+    try (vm_compute in NP; discriminate).
+  - cbn [fst]. unfold encodeConnectSize. unfold_sizes. clr. lia.
+  - cbn [fst]. unfold encodeConnackSize. unfold_sizes. clr. lia.
+  - destruct (PayloadMaxSize <? blen payload); [discriminate|]. cbn [fst]. unfold encodeSendSize. unfold_sizes. clr. lia.
+  - cbn [fst]. unfold encodeSendackSize, messageSeqSize. unfold_sizes. destruct (v <=? LegacyMessageSeqVersion); lia.
+  - cbn [fst]. unfold encodeRecvSize. unfold_sizes. clr. lia.
+  - cbn [fst]. unfold encodeRecvackSize, messageSeqSize. unfold_sizes. destruct (v <=? LegacyMessageSeqVersion); lia.
+  - cbn [fst]. unfold encodeDisConnectSize. unfold_sizes. clr. lia.
+  - cbn [fst]. unfold encodeSubSize. unfold_sizes. clr. lia.
+  - cbn [fst]. unfold encodeSubackSize. unfold_sizes. clr. lia.
+  - cbn [fst]. unfold encodeEventSize. unfold_sizes. clr. lia.
+Qed.
+
+(* ---- B: decodeX reads body_bytes back ---------------------------------------------------- *)
+
+Definition set_flags (f : frame) (fl' : flags) : frame :=
+  match f with
+  | FConnect _ a b c d e g h => FConnect fl' a b c d e g h
+  | FConnack _ a b c d e g => FConnack fl' a b c d e g
+  | FSend _ a b c d e g h i j k => FSend fl' a b c d e g h i j k
+  | FSendack _ a b c d e => FSendack fl' a b c d e
+  | FRecv _ a b c d e g h i j k l m n o p q => FRecv fl' a b c d e g h i j k l m n o p q
+  | FRecvack _ a b => FRecvack fl' a b
+  | FPing _ => FPing fl'
+  | FPong _ => FPong fl'
+  | FDisconnect _ a b => FDisconnect fl' a b
+  | FSub _ a b c d e g => FSub fl' a b c d e g
+  | FSuback _ a b c d e => FSuback fl' a b c d e
+  | FEvent _ a b c d => FEvent fl' a b c d
+  end.
+
+Ltac dstep :=
+  first [ rewrite dUint8_put by assumption
+        | rewrite dUint32_put by assumption
+        | rewrite dUint64_put by assumption
+        | rewrite dString_enc by assumption
+        | rewrite decodeMessageSeq_bytes by assumption ];
+  cbv beta iota.
+
+Lemma decodeConnect_rt v fl fl' ver dfl ts ck did uid tok :
+  fields_ok v (FConnect fl ver dfl ts ck did uid tok) = true ->
+  decodeConnect fl' (body_bytes (FConnect fl ver dfl ts ck did uid tok) v) v
+  = Some (FConnect fl' ver dfl ts ck did uid tok).
+Proof.
+  intro H. cbn [fields_ok] in H. split_ok H. cbn [body_bytes].
+  rewrite <- (app_nil_r (enc_str ck)). unfold decodeConnect. repeat dstep. reflexivity.
+Qed.
+
+Lemma decodeConnack_rt v fl fl' sv td rc nid sk salt :
+  fields_ok v (FConnack fl sv td rc nid sk salt) = true -> f_hsv fl' = f_hsv fl ->
+  decodeConnack fl' (body_bytes (FConnack fl sv td rc nid sk salt) v) v
+  = Some (FConnack fl' (if f_hsv fl then sv else 0) td rc (if 4 <=? v then nid else 0) sk salt).
+Proof.
+  intros H E. cbn [fields_ok] in H. split_ok H. cbn [body_bytes].
+  unfold decodeConnack. rewrite E.
+  destruct (f_hsv fl); destruct (4 <=? v); cbn [opt_bytes app].
+  - rewrite <- (app_nil_r (put_u64 nid)). repeat dstep. reflexivity.
+  - repeat dstep. reflexivity.
+  - rewrite <- (app_nil_r (put_u64 nid)). repeat dstep. reflexivity.
+  - repeat dstep. reflexivity.
+Qed.
+
+Lemma decodeSend_rt v fl fl' st ex cs ct mk cmn sn cid tp pl :
+  fields_ok v (FSend fl st ex cs ct mk cmn sn cid tp pl) = true ->
+  decodeSend fl' (body_bytes (FSend fl st ex cs ct mk cmn sn cid tp pl) v) v
+  = Some (FSend fl' st (if 3 <=? v then ex else 0) cs ct mk cmn (if has_stream v st then sn else [])
+                cid (if IsSet st SettingTopic then tp else []) pl).
+Proof.
+  intro H. cbn [fields_ok] in H. split_ok H. cbn [body_bytes].
+  unfold decodeSend. dstep. dstep. dstep.
+  destruct (has_stream v st); destruct (3 <=? v); destruct (IsSet st SettingTopic);
+    cbn [opt_bytes app]; repeat dstep; unfold dBinaryAll; cbv beta iota; reflexivity.
+Qed.
+
+Lemma decodeRecv_rt v fl fl' st ex mid ms sid sfl ts ct cs mk cmn sn cid tp fu pl :
+  fields_ok v (FRecv fl st ex mid ms sid sfl ts ct cs mk cmn sn cid tp fu pl) = true ->
+  decodeRecv fl' (body_bytes (FRecv fl st ex mid ms sid sfl ts ct cs mk cmn sn cid tp fu pl) v) v
+  = Some (FRecv fl' st (if 3 <=? v then ex else 0) mid ms
+            (if has_stream v st then sid else 0) (if has_stream v st then sfl else 0) ts ct 0
+            mk cmn (if has_stream v st then sn else []) cid (if IsSet st SettingTopic then tp else []) fu pl).
+Proof.
+  intro H. cbn [fields_ok] in H. split_ok H. cbn [body_bytes].
+  unfold decodeRecv. dstep. dstep. dstep. dstep. dstep.
+  destruct (has_stream v st); destruct (3 <=? v); destruct (IsSet st SettingTopic);
+    cbn [opt_bytes app]; rewrite <- ?app_assoc; repeat dstep; unfold dBinaryAll; cbv beta iota; reflexivity.
+Qed.
+
+Lemma decodeRecvack_rt v fl fl' mid ms :
+  fields_ok v (FRecvack fl mid ms) = true ->
+  decodeRecvack fl' (body_bytes (FRecvack fl mid ms) v) v = Some (FRecvack fl' mid ms).
+Proof.
+  intro H. cbn [fields_ok] in H. split_ok H. cbn [body_bytes].
+  rewrite <- (app_nil_r (seq_bytes v ms)). unfold decodeRecvack. repeat dstep. reflexivity.
+Qed.
+
+Lemma decodeDisConnect_rt v fl fl' rc rs :
+  fields_ok v (FDisconnect fl rc rs) = true ->
+  decodeDisConnect fl' (body_bytes (FDisconnect fl rc rs) v) v = Some (FDisconnect fl' rc rs).
+Proof.
+  intro H. cbn [fields_ok] in H. split_ok H. cbn [body_bytes].
+  rewrite <- (app_nil_r (enc_str rs)). unfold decodeDisConnect. repeat dstep. reflexivity.
+Qed.
+
+Lemma decodeSub_rt v fl fl' st ct ac sn cid pm :
+  fields_ok v (FSub fl st ct ac sn cid pm) = true ->
+  decodeSub fl' (body_bytes (FSub fl st ct ac sn cid pm) v) v = Some (FSub fl' st ct ac sn cid pm).
+Proof.
+  intro H. cbn [fields_ok] in H. split_ok H. cbn [body_bytes].
+  rewrite <- (app_nil_r (enc_str pm)). unfold decodeSub. repeat dstep. reflexivity.
+Qed.
+
+Lemma decodeSuback_rt v fl fl' ct ac rc sn cid :
+  fields_ok v (FSuback fl ct ac rc sn cid) = true ->
+  decodeSuback fl' (body_bytes (FSuback fl ct ac rc sn cid) v) v = Some (FSuback fl' ct ac rc sn cid).
+Proof.
+  intro H. cbn [fields_ok] in H. split_ok H. cbn [body_bytes].
+  rewrite <- (app_nil_r (put_u8 rc)). unfold decodeSuback. repeat dstep. reflexivity.
+Qed.
+
+Lemma decodeEvent_rt v fl fl' ts id ty dt :
+  fields_ok v (FEvent fl ts id ty dt) = true ->
+  decodeEvent fl' (body_bytes (FEvent fl ts id ty dt) v) v = Some (FEvent fl' ts id ty dt).
+Proof.
+  intro H. cbn [fields_ok] in H. split_ok H. cbn [body_bytes].
+  unfold decodeEvent. repeat dstep. reflexivity.
+Qed.
+
+Lemma decodeSendack_rt v fl fl' mid ms cs rc cmn :
+  fields_ok v (FSendack fl mid ms cs rc cmn) = true ->
+  decodeSendack fl' (body_bytes (FSendack fl mid ms cs rc cmn) v) v = Some (FSendack fl' mid ms cs rc cmn).
+Proof.
+  intro H. cbn [fields_ok] in H. split_ok H. cbn [body_bytes].
+  unfold decodeSendack. dstep. dstep. unfold dBinaryAll. cbv beta iota.
+  unfold decodeSendackBody, decodeSendackBodyCoreFirst.
+  destruct (blen cmn =? 0) eqn:Z; cbn [negb opt_bytes].
+  - apply N.eqb_eq in Z. apply blen_zero_nil in Z. subst cmn.
+    dstep. rewrite dUint8_put by assumption. cbv beta iota. reflexivity.
+  - dstep. rewrite dUint8_put by assumption. cbv beta iota.
+    assert (P : (0 <? blen (enc_str cmn)) = true) by (rewrite blen_enc_str; lia). rewrite P.
+    rewrite <- (app_nil_r (enc_str cmn)). rewrite dString_enc by assumption. cbv beta iota.
+    reflexivity.
+Qed.
+
+(* all types at once: the decoder registered for the frame type, run with the
+   flags that survive the header, returns the normalized frame *)
+Lemma pdm_connect : packetDecodeMap CONNECT = Some decodeConnect. Proof. reflexivity. Qed.
+Lemma pdm_connack : packetDecodeMap CONNACK = Some decodeConnack. Proof. reflexivity. Qed.
+Lemma pdm_send : packetDecodeMap SEND = Some decodeSend. Proof. reflexivity. Qed.
+Lemma pdm_sendack : packetDecodeMap SENDACK = Some decodeSendack. Proof. reflexivity. Qed.
+Lemma pdm_recv : packetDecodeMap RECV = Some decodeRecv. Proof. reflexivity. Qed.
+Lemma pdm_recvack : packetDecodeMap RECVACK = Some decodeRecvack. Proof. reflexivity. Qed.
+Lemma pdm_disconnect : packetDecodeMap DISCONNECT = Some decodeDisConnect. Proof. reflexivity. Qed.
+Lemma pdm_sub : packetDecodeMap SUB = Some decodeSub. Proof. reflexivity. Qed.
+Lemma pdm_suback : packetDecodeMap SUBACK = Some decodeSuback. Proof. reflexivity. Qed.
+Lemma pdm_event : packetDecodeMap EVENT = Some decodeEvent. Proof. reflexivity. Qed.
+Lemma pdm_ping : packetDecodeMap PING = None. Proof. reflexivity. Qed.
+Lemma pdm_pong : packetDecodeMap PONG = None. Proof. reflexivity. Qed.
+
+Lemma decode_body_rt v f dec : fields_ok v f = true ->
+  packetDecodeMap (frame_type f) = Some dec ->
+  dec (normalize_flags (frame_type f) (frame_flags f)) (body_bytes f v) v = Some (normalize v f).
+Proof.
+  intros H D. destruct f; cbn [frame_type] in D;
+    rewrite ?pdm_connect, ?pdm_connack, ?pdm_send, ?pdm_sendack, ?pdm_recv, ?pdm_recvack, ?pdm_disconnect,
+            ?pdm_sub, ?pdm_suback, ?pdm_event, ?pdm_ping, ?pdm_pong in D;
+    try discriminate; inversion D; subst dec; clear D;
+    cbn [frame_type frame_flags normalize].
+  - apply decodeConnect_rt. exact H.
+  - apply decodeConnack_rt; [exact H|]. reflexivity.
+  - apply decodeSend_rt. exact H.
+  - apply decodeSendack_rt. exact H.
+  - apply decodeRecv_rt. exact H.
+  - apply decodeRecvack_rt. exact H.
+  - apply decodeDisConnect_rt. exact H.
+  - apply decodeSub_rt. exact H.
+  - apply decodeSuback_rt. exact H.
+  - apply decodeEvent_rt. exact H.
+Qed.
+
+Lemma packetDecodeMap_some f : is_pingpong f = false -> exists dec, packetDecodeMap (frame_type f) = Some dec.
+Proof.
+  destruct f; intro NP; try (vm_compute in NP; discriminate); cbn [frame_type]; vm_compute; eexists; reflexivity.
+Qed.
